@@ -65,6 +65,11 @@ def val(i, n=None):
     return v
 
 
+def ftext(n):
+    """the text harness/h_api.c formats for `putstrf <key> <n>` / `addstrf <n>`: even n: "%s" of a..z repeated, odd n: "%0*d" of 7"""
+    return bytes(0x61 + i % 26 for i in range(n)) if n % 2 == 0 else b'0' * (n - 1) + b'7'
+
+
 def tkey(i):
     return bytes([0x6b, 0x10 + 2 * i])            # tree keys k.. with gaps (odd codes are "between" keys)
 
@@ -154,6 +159,17 @@ class Ref:
             return 'none'
         if op == 'clear':
             return 'vclear' if t == 'vec' else ('none' if t == 'harr' else 'clear')
+        if op == 'putstrf':
+            if t == 'tree':
+                return 'tputf %d %d %d' % (self.kid(a[0] + b'\0'), len(a[0]) + 1, a[1])
+            if t == 'hash':
+                return 'hputf %d %d %d' % (self.kid(a[0]), len(a[0]) + 1, a[1])
+            if t == 'ltbl':
+                return 'lputf %d %d %d %d %d %d' % (self.unique, self.top, self.fwd, self.kid(a[0]), len(a[0]) + 1, a[1])
+            if t == 'harr':
+                return 'aputf %d' % a[1]
+        if op == 'addstrf':
+            return 'saddf %d %d' % (len(self.l), a[0])
         if t == 'tree':
             if op == 'put':
                 return 'none' if not a[0] else 'tput %d %d %d' % (self.kid(a[0]), len(a[0]), len(a[1]))
@@ -293,6 +309,10 @@ class Ref:
         """a: list of decoded args (bytes or int). Returns expected result string, or None when unspecified."""
         t = self.typ
         hx = hexs
+        if op == 'putstrf':                              # = put(name, text, strlen(text) + 1); the tree's putstr also stores the name's NUL
+            return self.apply1('put', [a[0] + b'\0' if t == 'tree' else a[0], ftext(a[1]) + b'\0'])
+        if op == 'addstrf':                              # = addstr(text) = addlast(text, strlen(text)): an empty text is refused
+            return self.apply1('add', [ftext(a[0])])
         if op == 'first':
             self.cur = None
             self.ended = False
@@ -571,6 +591,10 @@ def decode_args(typ, op, words):
         return []
     if op in ('put',):
         return [b(words[0]), b(words[1]) if len(words) > 1 else b'']
+    if op == 'putstrf':
+        return [b(words[0]), int(words[1])]
+    if op == 'addstrf':
+        return [int(words[0])]
     if op in ('get', 'remove', 'near', 'getmulti', 'push', 'pushstr', 'add', 'addstr', 'addlast', 'addfirst'):
         return [b(words[0])]
     if op in ('addat', 'setat'):
@@ -629,6 +653,9 @@ def keys_of(prefix):
     return ks
 
 
+FLENS = (10, 1023, 1024, 1025, 2500, 5000)         # formatted lengths around the 1024 / 2048 / 4096 buffer steps of DYNAMIC_VSPRINTF
+
+
 def gen_tree(rng, quick):
     H = []
     for opt in (0, 1):
@@ -651,6 +678,10 @@ def gen_tree(rng, quick):
         if len(ks) >= 3:
             H.append(Hist('tree', [opt], pre + ['first', 'next', 'next'], 'next', ['next', 'next'] + tail, 'tree/%s/midwalk' % name))
         H.append(Hist('tree', [opt], pre + ['first'], 'next', ['next', 'next', 'next'] + tail, 'tree/%s/retry' % name))
+        if name in ('empty', '3mid', '20rnd'):
+            for L in FLENS:
+                H.append(Hist('tree', [opt], pre, 'putstrf 6b41 %d' % L, ['get 6b4100'] + tail, 'tree/%s/putstrf-new' % name))
+                H.append(Hist('tree', [opt], pre + ['putstrf 6b41 12'], 'putstrf 6b41 %d' % L, ['get 6b4100'] + tail, 'tree/%s/putstrf-old' % name))
     return H
 
 
@@ -678,6 +709,11 @@ def gen_hash(rng, quick):
             if len(ks) >= 3:
                 H.append(Hist('hash', [rg, opt], pre + ['first', 'next', 'next'], 'next', ['next', 'next'] + tail, 'hash/r%d/n%d/midwalk' % (rg, n)))
             H.append(Hist('hash', [rg, opt], pre + ['first'], 'next', ['next', 'next', 'next'] + tail, 'hash/r%d/n%d/retry' % (rg, n)))
+            if n in (0, 3, 20) and rg in (1, 0):
+                for L in FLENS:
+                    H.append(Hist('hash', [rg, opt], pre, 'putstrf 6e6577 %d' % L, ['get 6e6577'] + tail, 'hash/r%d/n%d/putstrf-new' % (rg, n)))
+                    if ks:
+                        H.append(Hist('hash', [rg, opt], pre, 'putstrf %s %d' % (ks[len(ks) // 2], L), ['get %s' % ks[len(ks) // 2]] + tail, 'hash/r%d/n%d/putstrf-old' % (rg, n)))
     return H
 
 
@@ -706,6 +742,11 @@ def gen_ltbl(rng, quick):
             if n >= 3:
                 H.append(Hist('ltbl', [opt], pre + ['first', 'next', 'next'], 'next', ['next', 'next'] + tail, 'ltbl/o%d/n%d/midwalk' % (opt, n)))
             H.append(Hist('ltbl', [opt], pre + ['first'], 'next', ['next', 'next', 'next'] + tail, 'ltbl/o%d/n%d/retry' % (opt, n)))
+            if n in (0, 3, 20) and opt in (0, 2, 1 | 2 | 8):
+                for L in FLENS:
+                    H.append(Hist('ltbl', [opt], pre, 'putstrf 6e6577 %d' % L, ['get 6e6577'] + tail, 'ltbl/o%d/n%d/putstrf-new' % (opt, n)))
+                    if uniq:
+                        H.append(Hist('ltbl', [opt], pre, 'putstrf %s %d' % (hexs(uniq[0]), L), ['get %s' % hexs(uniq[0])] + tail, 'ltbl/o%d/n%d/putstrf-old' % (opt, n)))
     return H
 
 
@@ -781,11 +822,20 @@ def gen_wrappers(rng, quick):
         tail = ['add 4242', 'addstr 616263', 'toarray', 'tostring', 'size']
         for t in ['add aa00', 'addstr 616263', 'toarray', 'tostring']:
             H.append(Hist('grow', [opt], pre, t, tail, 'grow/n%d' % n))
+        if n in (0, 3, 20):
+            for L in (0,) + FLENS:
+                H.append(Hist('grow', [opt], pre, 'addstrf %d' % L, tail, 'grow/n%d/addstrf' % n))
     return H
 
 
 def gen_harr(rng, quick):
     H = []
+    for n in (0, 2):
+        pre = ['put %s %s' % (hexs(skey(i)), hexs(val(i))) for i in range(n)]
+        for L in FLENS:
+            H.append(Hist('harr', [256], pre, 'putstrf 6e6577 %d' % L, ['get 6e6577', 'first', 'next', 'size'], 'harr/s256/n%d/putstrf-new' % n))
+            if n:
+                H.append(Hist('harr', [256], pre, 'putstrf %s %d' % (hexs(skey(0)), L), ['get %s' % hexs(skey(0)), 'size'], 'harr/s256/n%d/putstrf-old' % n))
     for slots in (8, 16):
         H.append(Hist('harr', [slots], [], 'new', ['put 6b3031 0102', 'get 6b3031', 'size'], 'ctor'))
         for n in (0, 1, 2, 3):
@@ -912,8 +962,10 @@ def monitor(h, recs):
         if ref is not None and op != 'new':
             applied = not (injected_here and failed)
             if applied:
-                if h.typ == 'harr' and op == 'put':       # capacity is C06's subject: take the implementation's verdict (a failed put may drop its key)
+                if h.typ == 'harr' and op in ('put', 'putstrf'):       # capacity is C06's subject: take the implementation's verdict (a failed put may drop its key)
                     a = decode_args(h.typ, op, w[1:])
+                    if op == 'putstrf':
+                        a = [a[0], ftext(a[1]) + b'\0']
                     if d['r'] == 'true':
                         ref.d[a[0]] = a[1]
                     elif parse_dump('harr', d['A'])[1] != len(ref.d):
@@ -971,7 +1023,9 @@ def model_input(h, recs):
         a = decode_args(h.typ, op, w[1:])
         out.append(ref.model_op(op, a, d))
         if not (d['inj'] and d['rep'] == 'fail'):
-            if h.typ == 'harr' and op == 'put':
+            if h.typ == 'harr' and op in ('put', 'putstrf'):
+                if op == 'putstrf':
+                    a = [a[0], ftext(a[1]) + b'\0']
                 if d['r'] == 'true':
                     ref.d[a[0]] = a[1]
                 elif parse_dump('harr', d['A'])[1] != len(ref.d):
@@ -1072,18 +1126,21 @@ def rand_hist(rng, typ, nops):
         new = [rng.choice([0, 1])]
         for _ in range(nops):
             k = hexs(tkey(rng.randrange(12)))
-            ops.append(rng.choices(['put %s %s' % (k, rng.choice([v(), v(), '-'])), 'get ' + k, 'remove ' + k, 'min', 'max', 'first', 'next', 'near ' + k, 'clear', 'size'],
-                                   weights=[30, 12, 14, 3, 3, 3, 12, 5, 0.7, 2])[0])
+            ops.append(rng.choices(['put %s %s' % (k, rng.choice([v(), v(), '-'])), 'get ' + k, 'remove ' + k, 'min', 'max', 'first', 'next', 'near ' + k, 'clear', 'size',
+                                    'putstrf %s %d' % (k, rng.choice([0, 3, 1023, 1024, 2047, 2048, rng.randrange(3000)]))],
+                                   weights=[30, 12, 14, 3, 3, 3, 12, 5, 0.7, 2, 3])[0])
     elif typ == 'hash':
         new = [rng.choice([0, 1, 2, 5]), rng.choice([0, 1])]
         for _ in range(nops):
             k = hexs(skey(rng.randrange(14)))
-            ops.append(rng.choices(['put %s %s' % (k, rng.choice([v(), v(), '-'])), 'get ' + k, 'remove ' + k, 'first', 'next', 'clear', 'size'], weights=[30, 12, 14, 3, 12, 0.7, 2])[0])
+            ops.append(rng.choices(['put %s %s' % (k, rng.choice([v(), v(), '-'])), 'get ' + k, 'remove ' + k, 'first', 'next', 'clear', 'size',
+                                    'putstrf %s %d' % (k, rng.choice([0, 3, 1023, 1024, 2047, 2048, rng.randrange(3000)]))], weights=[30, 12, 14, 3, 12, 0.7, 2, 3])[0])
     elif typ == 'ltbl':
         new = [rng.choice([0, 1, 2, 3, 4, 8, 16, 2 | 16, 4 | 8, 2 | 4 | 8 | 16, rng.randrange(32)])]
         for _ in range(nops):
             k = hexs(rng.choice([skey(rng.randrange(5)), b'Dup', b'dup', b'DUP']))
-            ops.append(rng.choices(['put %s %s' % (k, v()), 'get ' + k, 'getmulti ' + k, 'remove ' + k, 'first', 'next', 'clear', 'size'], weights=[34, 10, 8, 8, 3, 12, 0.7, 2])[0])
+            ops.append(rng.choices(['put %s %s' % (k, v()), 'get ' + k, 'getmulti ' + k, 'remove ' + k, 'first', 'next', 'clear', 'size',
+                                    'putstrf %s %d' % (k, rng.choice([0, 3, 1023, 1024, 2047, 2048, rng.randrange(3000)]))], weights=[34, 10, 8, 8, 3, 12, 0.7, 2, 3])[0])
     elif typ == 'list':
         new = [rng.choice([0, 1])]
         for _ in range(nops):
@@ -1108,7 +1165,8 @@ def rand_hist(rng, typ, nops):
     elif typ == 'grow':
         new = [rng.choice([0, 1])]
         for _ in range(nops):
-            ops.append(rng.choices(['add ' + v(), 'addstr 616263', 'toarray', 'tostring', 'clear', 'size'], weights=[30, 8, 6, 6, 0.7, 2])[0])
+            ops.append(rng.choices(['add ' + v(), 'addstr 616263', 'toarray', 'tostring', 'clear', 'size', 'addstrf %d' % rng.choice([0, 3, 1023, 1024, 2048, rng.randrange(3000)])],
+                                   weights=[30, 8, 6, 6, 0.7, 2, 4])[0])
     else:
         new = [rng.choice([8, 16, 32])]
         for _ in range(nops):
